@@ -202,3 +202,28 @@ class PColumnSizes:
         inner = {"n": "%s" % model.get("n", "10"), "max": "max", "nchar": "%s %s" % (model.get("n", "30"), model.get("unit", "CHAR")),
                  "ps": "%s,%s" % (model.get("p", "10"), model.get("s", "2")), "star": "*,%s" % model.get("s", "2")}[f]
         return dict(ddl="CREATE TABLE t (a int, x varchar(%s) NOT NULL, b int);" % inner)
+
+
+@contract
+class PCTypeAngle:
+    """c_type : tid | c_type tid | id id tid...: the bracket part assembled by p_tid is appended to the type text in order"""
+    fn = "dialects.sql.Column.p_c_type"
+    props = ["C09"]
+    observable = "result"
+    cases = {"tid": dict(kind="tid"), "c_type tid": dict(kind="ctype_tid")}
+
+    def build(G, case):
+        tid = [G.str("tid", r"[A-Za-z]+<[A-Za-z0-9_:<>, ]*>", "ARRAY<INT>")]
+        if case["kind"] == "tid":
+            return dict(args=[G.parser(), production(G, "tid", {1: tid})])
+        return dict(args=[G.parser(), production(G, "c_type tid", {1: {"type": G.str("base", r"[A-Za-z][A-Za-z0-9_]*", "STRUCT")}, 2: tid})])
+
+    def requires(case, self_, p):
+        t = p[len(p) - 1][0]
+        return "[]" not in t
+
+    def spec(case, self_, p):
+        if case["kind"] == "tid":
+            p[0] = {"type": p[1][0]}
+        else:
+            p[0] = {"type": p[1]["type"] + " " + p[2][0]}
